@@ -531,7 +531,7 @@ def _cfg_text(cfg, uni, invariants, properties):
         "Projects": tlc.lit(set(cfg.projects)), "Keys": tlc.lit(set(uni.keys)), "Vals": tlc.lit(set(uni.vals)),
         "Handles": tlc.lit({"c"}), "DocVals": tlc.lit(set(cfg.docvals)), "FileNames": tlc.lit(set(cfg.files)),
         "FVals": tlc.lit(set(cfg.fvals)), "MaxDepth": cfg.depth, "IdOrder": "<- IdOrderDef", "Ops": "<- OpsDef",
-        "InitJobs": "<- InitJobsDef", "InitCache": "<- InitCacheDef", "FixedD3": tlc.lit(W.probe_d3()), "FixedD4": tlc.lit(W.probe_d4()),
+        "InitJobs": "<- InitJobsDef", "InitCache": "<- InitCacheDef", "FixedD3": tlc.lit(W.probe_d3()), "FixedD4": tlc.lit(W.probe_d4()), "FixedD7": tlc.lit(W.probe_d7()),
     }
     return tlc.cfg(consts, init="Init", next="CliNext", invariants=invariants, properties=properties, constraints=["Depth"])
 
